@@ -154,6 +154,15 @@ def build_b(case, W):
         return b, xt
     if kind == "random":
         return ref * rng.random(m) + ref * 1e-3, xt
+    if kind == "nonpositive":    # no positive entry, some exactly zero, at least one negative (over-subtracted background)
+        b = -np.abs(bc + 0.3 * ref * rng.normal(size=m)) * (rng.random(m) < 0.6)
+        if not (b < 0).any():
+            b[int(rng.integers(m))] = -ref
+        return b, xt
+    if kind == "all_negative":
+        return -ref * (rng.random(m) + 1e-3), xt
+    if kind == "mixed":
+        return ref * rng.normal(size=m), xt
     if kind == "single":
         b = np.zeros(m)
         b[int(rng.integers(m))] = ref
